@@ -707,8 +707,27 @@ def d2_apply(ctx, idx):
             if gs:
                 (eq_paths if gs[0][1] == '==' else other).append((p, gs[0]))
         construct = 'apply_attempt_based_credit: credit == 1'
-        if not eq_paths and not other and idx.unreviewed:
-            r_one.undecided(construct, 'no `credit == 1` decision found here; unreviewed helpers remain', fi.loc)
+        early = [p for p in live if p.kind == 'ret' and not any(e[0] == 'store' for e, _ in p.effects)
+                 and any(_schedule_calls(t) for t in _path_terms(p))]
+        wrong = []
+        for p in early:
+            for g in p.conds:
+                if g[0] == 'cmp' and g[1] == '==' and ai.num(1) in (g[2], g[3]):
+                    side = g[3] if g[2] == ai.num(1) else g[2]
+                    if not _schedule_calls(side) and ai.mentions(side, pN):
+                        wrong.append((p, g))
+        if not eq_paths and not other and wrong:
+            p, g = wrong[0]
+            r_one.violation(construct, 'the exit that leaves the result untouched tests the attempt number (`%s`) instead of the credit: a '
+                            'schedule that still grants full credit on a later attempt (LinearCredit with decrease_credit_after > 1, a '
+                            'factor/minimum of 1) is then "applied" - every positive grade is multiplied by 1.0, counts as changed and the '
+                            'note "Maximum credit for attempt #n is 100%%." is shown although nothing was reduced; and an author schedule '
+                            'that reduces credit on the first attempt is ignored' % ai.show(g), lib.loc(fi, p.stmt or fi.node),
+                            expected='credit == 1', found=ai.show(g))
+        elif not eq_paths and not other and (idx.unreviewed or early):
+            r_one.undecided(construct, 'no `credit == 1` decision recognised (%s)' % (
+                'an early return under `%s` was not understood' % ' and '.join(ai.show(c) for c in early[0].conds[-1:])[:100] if early
+                else 'unreviewed helpers remain'), fi.loc)
         elif not eq_paths and not other:
             r_one.violation(construct, 'the early return for full credit is gone: on a first attempt every positive grade is '
                             '"changed" (multiplied by 1.0) and the note "Maximum credit for attempt #1 is 100%." is shown although '
@@ -780,7 +799,7 @@ def d2_same(ctx, idx, fi, R, N):
     r = ctx.rule('D2.SAME', 'the credit compared with 1 for the early exit is the same value that multiplies the grades (every '
                  'float()/round() normalisation precedes the test)', floor=1)
     with r:
-        mult = sorted(getattr(fi, '_c17_mult', set()))
+        mult = sorted(getattr(fi, '_c17_mult', set()), key=str)
         if not mult:
             raise AnalysisError('the local that multiplies the grades was not identified (D2.SCALE)')
         try:
@@ -797,11 +816,15 @@ def d2_same(ctx, idx, fi, R, N):
                 continue
             T = tested[0]
             for name in mult:
-                V = p.env.get(name)
+                V = name if isinstance(name, tuple) else p.env.get(name)
                 if V is None or (ai.show(T), ai.show(V)) in seen:
                     continue
+                if isinstance(name, tuple) and _schedule_calls(V) and _schedule_calls(T) and \
+                        _schedule_calls(V)[0][3] != _schedule_calls(T)[0][3]:
+                    continue          # the same expression on the path with the other (clamped / unclamped) attempt value
                 seen.add((ai.show(T), ai.show(V)))
-                construct = 'apply_attempt_based_credit: credit tested vs credit applied (%s)' % name
+                construct = 'apply_attempt_based_credit: credit tested vs credit applied (%s)' % (
+                    name if not isinstance(name, tuple) else 'value of the schedule')
                 where = lib.loc(fi, p.stmt or fi.node)
                 lt, it_ = _layers(T)
                 lv, iv = _layers(V)
@@ -863,19 +886,39 @@ def _truthy_update(name, v):
     return False
 
 
-def _entry_body(r, idx, fi, stmts, X, kind, credits, where, env=None, returns_flag=False, owner=None):
+def _marks(p, init_env, init_store, pX):
+    """Names (locals, or `obj.attr` of an object other than the entry) that the path updates to a definite 'changed' mark."""
+    out = {}
+    for k, v in p.env.items():
+        old = init_env.get(k, ('param', k))
+        if v == old:
+            continue
+        if v == ('bool', True) or (v[0] == 'num' and v[1] > 0) or \
+                (v[0] == 'add' and ((v[1] == old and v[2][0] == 'num' and v[2][1] > 0) or (v[2] == old and v[1][0] == 'num' and v[1][1] > 0))):
+            out[k] = None
+    for k, v in p.store.items():
+        if k[0] == 'attr' and k[1] != pX and init_store.get(k) != v and (v == ('bool', True) or (v[0] == 'num' and v[1] > 0)):
+            out[ai.show(k) if k[1][0] != 'call' else '%s.%s' % (k[1][1].split('.')[-1], k[2])] = k
+    return out
+
+
+def _entry_body(r, idx, fi, stmts, X, kind, credits, where, env=None, returns_flag=False, owner=None, store=None):
     """Check the per-entry work (statements `stmts` acting on entry X): exactly the entries with grade > 0 are scaled.
     Returns the set of local names that record 'an entry changed'."""
     pX = ('param', X)
     G = ('index', pX, ('str', 'grade_decimal'))
     okloc = ('index', pX, ('str', 'ok'))
     construct = 'apply_attempt_based_credit [%s result]' % kind
+    init_env, init_store = dict(env or {}), dict(store or {})
     try:
-        paths = ai.sym_exec(idx, fi, stmts=stmts, env=env)
+        paths = ai.sym_exec(idx, fi, stmts=stmts, env=env, store=store)
     except Unsupported as e:
         r.undecided(construct + ': body', str(e), where)
         return set()
     owner = owner or fi
+    if not hasattr(owner, '_c17_flag_keys'):
+        owner._c17_flag_keys = {}
+    iscred = lambda x: (x[0] == 'param' and x[1] in credits) or _is_credit(x)       # noqa: E731
     if not hasattr(owner, '_c17_mult'):
         owner._c17_mult = set()
     flags = None
@@ -916,25 +959,24 @@ def _entry_body(r, idx, fi, stmts, X, kind, credits, where, env=None, returns_fl
             seen_nonpos = True
             if touched:
                 r.violation(construct + ': zero grades', 'entries whose grade is not positive are modified as well', where)
-            marks = {k for k, v in p.env.items() if _truthy_update(k, v)}
+            marks = set(_marks(p, init_env, init_store, pX))
             if marks and flags is not None and marks & flags:
                 r.violation(construct + ': flag', 'an entry whose grade is not positive is recorded as changed (%s)' % ', '.join(sorted(marks & flags)), where)
             continue
         seen_pos = True
         r.ok(construct + ': guard', 'grade_decimal > 0', where)
-        prod_ok = stored is not None and stored[0] == 'mul' and (
-            (stored[1] == G and stored[2][0] == 'param' and stored[2][1] in credits) or
-            (stored[2] == G and stored[1][0] == 'param' and stored[1][1] in credits))
+        prod_ok = stored is not None and stored[0] == 'mul' and ((stored[1] == G and iscred(stored[2])) or (stored[2] == G and iscred(stored[1])))
         if stored is None:
             r.violation(construct + ': product', 'the new grade is never stored back into grade_decimal', where,
                         expected="%s['grade_decimal'] * credit" % X)
         elif prod_ok:
-            owner._c17_mult.add((stored[2] if stored[1] == G else stored[1])[1])
+            m_ = stored[2] if stored[1] == G else stored[1]
+            owner._c17_mult.add(m_[1] if m_[0] == 'param' else m_)
             r.ok(construct + ': product', 'grade_decimal := grade_decimal * credit', where)
-        elif any(s[0] == 'param' and s[1] in credits for s in ai.subterms(stored)) and any(s == G for s in ai.subterms(stored)):
+        elif any(iscred(s) for s in ai.subterms(stored)) and any(s == G for s in ai.subterms(stored)):
             r.violation(construct + ': product', 'the new grade is `%s`, not grade * credit' % ai.show(stored), where,
                         expected="%s['grade_decimal'] * credit" % X, found=ai.show(stored))
-        elif stored[0] == 'param' and stored[1] in credits:
+        elif iscred(stored):
             r.violation(construct + ': product', 'the stored grade `%s` does not combine the old grade with the credit' % ai.show(stored),
                         where, expected="%s['grade_decimal'] * credit" % X, found=ai.show(stored))
         else:
@@ -954,7 +996,9 @@ def _entry_body(r, idx, fi, stmts, X, kind, credits, where, env=None, returns_fl
                 r.undecided(construct + ': ok', 'ok is recomputed from `%s`' % ai.show(args[0] if args else okv), where)
         else:
             r.undecided(construct + ': ok', 'ok is set to `%s`' % ai.show(okv), where)
-        marks = {k for k, v in p.env.items() if _truthy_update(k, v)}
+        mk = _marks(p, init_env, init_store, pX)
+        marks = set(mk)
+        owner._c17_flag_keys.update({k: v for k, v in mk.items() if v is not None})
         flags = marks if flags is None else flags & marks
         if marks:
             r.ok(construct + ': flag', 'a scaled entry is recorded (%s)' % ', '.join(sorted(marks)), where)
@@ -1022,9 +1066,7 @@ def d2_scale(ctx, idx, fi, R, N):
     tb = ai.TermBuilder(idx, fi)
     fi._c17_flags = set()
     with r:
-        credits = _credit_names(fi, idx)
-        if not credits:
-            raise AnalysisError('no local holds the value of the schedule call')
+        credits = _credit_names(fi, idx)        # may be empty: the credit can live in an object field / be used as an expression
         in_list_t = ('cmp', 'in', ('str', 'input_list'), pR)
         in_list = lambda test: tb.build(lib.inline_locals(test, fi.node), {}) == in_list_t    # noqa: E731
         from ..index import ancestors
@@ -1032,6 +1074,15 @@ def d2_scale(ctx, idx, fi, R, N):
         flags = set()
         site_nodes = set()
         n_sites = 0
+        cap = {id(n): None for n in walk_own(fi.node) if isinstance(n, (ast.For, ast.While, ast.If))}
+        try:
+            ai.sym_exec(idx, fi, loops='opaque', capture=cap)
+        except Unsupported:
+            pass
+
+        def at(node):
+            got = cap.get(id(node))
+            return got if got is not None else ({}, {})
         # --- loops over entries
         for loop in [n for n in walk_own(fi.node) if isinstance(n, (ast.For, ast.While))]:
             if not any(lib.subscript_key(x) == 'grade_decimal' for x in ast.walk(loop)):
@@ -1052,7 +1103,9 @@ def d2_scale(ctx, idx, fi, R, N):
             r.ok('scaling loop: exhaustive', 'no break/continue/return in the loop', where)
             served |= set(kinds)
             site_nodes |= {id(x) for b in loop.body for x in ast.walk(b)}
-            flags |= _entry_body(r, idx, fi, loop.body, X, '/'.join(kinds) or 'list', credits, where)
+            e0, s0 = at(loop)
+            e0 = {k: v for k, v in e0.items() if k != X}
+            flags |= _entry_body(r, idx, fi, loop.body, X, '/'.join(kinds) or 'list', credits, where, env=e0, store=s0)
         # --- comprehensions that apply a per-entry helper of the class: [self._helper(entry, credit) for entry in entries]
         for comp in [n for n in walk_own(fi.node) if isinstance(n, (ast.ListComp, ast.GeneratorExp, ast.SetComp))]:
             if len(comp.generators) != 1 or comp.generators[0].ifs or not isinstance(comp.generators[0].target, ast.Name):
@@ -1108,7 +1161,8 @@ def d2_scale(ctx, idx, fi, R, N):
             else:
                 r.undecided('apply_attempt_based_credit [single result]: branch', "not selected by 'input_list' in result", where)
             site_nodes |= {id(x) for x in ast.walk(site)}
-            flags |= _entry_body(r, idx, fi, [site], R, 'single', credits, where)
+            e0, s0 = at(site)
+            flags |= _entry_body(r, idx, fi, [site], R, 'single', credits, where, env=e0, store=s0)
         if n_sites == 0:
             if idx.unreviewed:
                 r.undecided('apply_attempt_based_credit', 'no scaling of grade_decimal found here; unreviewed helpers remain: %s' % list(idx.unreviewed), fi.loc)
@@ -1214,12 +1268,15 @@ def d2_note(ctx, idx, fi, R, N):
         text_checked = set()
         okseen = set()
         for p in live:
-            ft = flag_atom if flag is None else p.env.get(flag, ('param', flag))
+            fkeyterm = getattr(fi, '_c17_flag_keys', {}).get(flag) if flag is not None else None
+            ft = flag_atom if flag is None else (p.store.get(fkeyterm, fkeyterm) if fkeyterm is not None else p.env.get(flag, ('param', flag)))
             if flag is None:
                 fvals, fkey = [False, True], flag_atom
             elif ft[0] == 'bool':
                 fvals = [ft[1]]
                 fkey = None
+            elif fkeyterm is not None and ft[0] != 'bool' and ft[0] != 'num':
+                fvals, fkey = [False, True], ft
             elif ft[0] == 'opaque' or ft == ('param', flag):
                 init = [n for n in walk_own(fi.node) if isinstance(n, ast.Assign) and any(isinstance(t_, ast.Name) and t_.id == flag for t_ in n.targets)
                         and isinstance(n.value, ast.Constant)]
@@ -1490,6 +1547,9 @@ _TAIL_ENTRIES_AND_KEY_PICKED_ONCE = '        if "input_list" in result:\n       
 
 _TAIL_HELPER_AND_ANY = '        entries = result[\'input_list\'] if "input_list" in result else [result]\n        reductions = [self._scale_grade(entry, credit) for entry in entries]\n\n        # Append the message if credit was reduced\n        if self.config[\'attempt_based_credit_msg\'] and any(reductions):\n            credit_decimal = Decimal(credit * 100).quantize(Decimal(\'.1\'))\n            if credit_decimal == int(credit_decimal):\n                credit_decimal = int(credit_decimal)\n            msg = "Maximum credit for attempt #{} is {}%."\n            key = \'overall_message\' if "input_list" in result else \'msg\'\n            if result[key]:\n                result[key] += \'\\n\\n\'\n            result[key] += msg.format(attempt_number, credit_decimal)\n\n    def _scale_grade(self, entry, credit):\n        """Scales a positive grade by credit; returns whether the entry changed"""\n        if not entry[\'grade_decimal\'] > 0:\n            return False\n        grade = entry[\'grade_decimal\'] * credit\n        entry[\'grade_decimal\'] = grade\n        entry[\'ok\'] = self.grade_decimal_to_ok(grade)\n        return True\n\n'
 
+_CAP_SLIP = [('        Checks equality by checking class-equality and config equality.\n        """\n        return self.__class__ == other.__class__ and self.config == other.config\n\nclass AbstractGrader(ObjectWithSchema):\n    """\n', '        Checks equality by checking class-equality and config equality.\n        """\n        return self.__class__ == other.__class__ and self.config == other.config\n\nclass CreditCap(object):\n    """\n    The maximum credit that is available on a given attempt.\n\n    Scales the grades in {\'ok\', \'grade_decimal\', \'msg\'} dictionaries, keeps track of\n    whether any grade was actually reduced, and words the note for the student.\n    """\n\n    def __init__(self, attempt_number, credit):\n        self.attempt_number = attempt_number\n        # float() in case credit functions return the integers 0 or 1\n        self.credit = round(float(credit), 4)\n        self.reduced = False\n\n    def is_full(self):\n        """Is 100% credit still available? If so, no grades need to be modified."""\n        return self.attempt_number == 1\n\n    def apply(self, entry):\n        """Multiply a positive grade by the credit, updating \'ok\' to match the new grade"""\n        if entry[\'grade_decimal\'] > 0:\n            grade = entry[\'grade_decimal\'] * self.credit\n            entry[\'grade_decimal\'] = grade\n            entry[\'ok\'] = AbstractGrader.grade_decimal_to_ok(grade)\n            self.reduced = True\n\n    def note(self):\n        """The message that explains the reduced credit to the student"""\n        percent = Decimal(self.credit * 100).quantize(Decimal(\'.1\'))\n        if percent == int(percent):\n            # Used to get rid of .0 appearing in percentages\n            percent = int(percent)\n        return "Maximum credit for attempt #{} is {}%.".format(self.attempt_number, percent)\n\nclass AbstractGrader(ObjectWithSchema):\n    """\n'), ('                   "set in the <code>customresponse</code> tag.")\n            raise ConfigError(msg)\n\n        if attempt_number < 1:  # Just in case edX has issues\n            attempt_number = 1\n        self.log("Attempt number {}".format(attempt_number))\n\n        # Compute the maximum credit\n        credit = self.config[\'attempt_based_credit\'](attempt_number)\n        credit = float(credit)  # In case graders return integers 0 or 1\n        credit = round(credit, 4)\n        if credit == 1:\n            # Don\'t do any modifications\n            return\n        self.log("Maximum credit is {}".format(credit))\n\n        # Multiply all grades by credit, updating from \'ok\'=True to \'partial\' as needed\n        changed_result = False\n        if "input_list" in result:\n            for results_dict in result[\'input_list\']:\n                if results_dict[\'grade_decimal\'] > 0:\n                    grade = results_dict[\'grade_decimal\'] * credit\n                    results_dict[\'grade_decimal\'] = grade\n                    results_dict[\'ok\'] = self.grade_decimal_to_ok(grade)\n                    changed_result = True\n        else:\n            if result[\'grade_decimal\'] > 0:\n                grade = result[\'grade_decimal\'] * credit\n                result[\'grade_decimal\'] = grade\n                result[\'ok\'] = self.grade_decimal_to_ok(grade)\n                changed_result = True\n\n        # Append the message if credit was reduced\n        if self.config[\'attempt_based_credit_msg\'] and changed_result:\n            credit_decimal = Decimal(credit * 100).quantize(Decimal(\'.1\'))\n            if credit_decimal == int(credit_decimal):\n                # Used to get rid of .0 appearing in percentages\n                credit_decimal = int(credit_decimal)\n            msg = "Maximum credit for attempt #{} is {}%."\n            if "input_list" in result:\n                key = \'overall_message\'\n            else:\n                key = \'msg\'\n            if result[key]:\n                result[key] += \'\\n\\n\'\n            result[key] += msg.format(attempt_number, credit_decimal)\n\n    @staticmethod\n    def grade_decimal_to_ok(grade):\n', '                   "set in the <code>customresponse</code> tag.")\n            raise ConfigError(msg)\n\n        attempt_number = max(attempt_number, 1)  # Just in case edX has issues\n        self.log("Attempt number {}".format(attempt_number))\n\n        # Compute the maximum credit\n        cap = CreditCap(attempt_number, self.config[\'attempt_based_credit\'](attempt_number))\n        if cap.is_full():\n            # Don\'t do any modifications\n            return\n        self.log("Maximum credit is {}".format(cap.credit))\n\n        # Multiply all grades by credit, updating from \'ok\'=True to \'partial\' as needed\n        if "input_list" in result:\n            for results_dict in result[\'input_list\']:\n                cap.apply(results_dict)\n        else:\n            cap.apply(result)\n\n        # Append the message if credit was reduced\n        if self.config[\'attempt_based_credit_msg\'] and cap.reduced:\n            key = \'overall_message\' if "input_list" in result else \'msg\'\n            if result[key]:\n                result[key] += \'\\n\\n\'\n            result[key] += cap.note()\n\n    @staticmethod\n    def grade_decimal_to_ok(grade):\n')]
+_CAP_OK = [('        Checks equality by checking class-equality and config equality.\n        """\n        return self.__class__ == other.__class__ and self.config == other.config\n\nclass AbstractGrader(ObjectWithSchema):\n    """\n', '        Checks equality by checking class-equality and config equality.\n        """\n        return self.__class__ == other.__class__ and self.config == other.config\n\nclass CreditCap(object):\n    """\n    The maximum credit that is available on a given attempt.\n\n    Scales the grades in {\'ok\', \'grade_decimal\', \'msg\'} dictionaries, keeps track of\n    whether any grade was actually reduced, and words the note for the student.\n    """\n\n    def __init__(self, attempt_number, credit):\n        self.attempt_number = attempt_number\n        # float() in case credit functions return the integers 0 or 1\n        self.credit = round(float(credit), 4)\n        self.reduced = False\n\n    def is_full(self):\n        """Is 100% credit still available? If so, no grades need to be modified."""\n        return self.credit == 1\n\n    def apply(self, entry):\n        """Multiply a positive grade by the credit, updating \'ok\' to match the new grade"""\n        if entry[\'grade_decimal\'] > 0:\n            grade = entry[\'grade_decimal\'] * self.credit\n            entry[\'grade_decimal\'] = grade\n            entry[\'ok\'] = AbstractGrader.grade_decimal_to_ok(grade)\n            self.reduced = True\n\n    def note(self):\n        """The message that explains the reduced credit to the student"""\n        percent = Decimal(self.credit * 100).quantize(Decimal(\'.1\'))\n        if percent == int(percent):\n            # Used to get rid of .0 appearing in percentages\n            percent = int(percent)\n        return "Maximum credit for attempt #{} is {}%.".format(self.attempt_number, percent)\n\nclass AbstractGrader(ObjectWithSchema):\n    """\n'), ('                   "set in the <code>customresponse</code> tag.")\n            raise ConfigError(msg)\n\n        if attempt_number < 1:  # Just in case edX has issues\n            attempt_number = 1\n        self.log("Attempt number {}".format(attempt_number))\n\n        # Compute the maximum credit\n        credit = self.config[\'attempt_based_credit\'](attempt_number)\n        credit = float(credit)  # In case graders return integers 0 or 1\n        credit = round(credit, 4)\n        if credit == 1:\n            # Don\'t do any modifications\n            return\n        self.log("Maximum credit is {}".format(credit))\n\n        # Multiply all grades by credit, updating from \'ok\'=True to \'partial\' as needed\n        changed_result = False\n        if "input_list" in result:\n            for results_dict in result[\'input_list\']:\n                if results_dict[\'grade_decimal\'] > 0:\n                    grade = results_dict[\'grade_decimal\'] * credit\n                    results_dict[\'grade_decimal\'] = grade\n                    results_dict[\'ok\'] = self.grade_decimal_to_ok(grade)\n                    changed_result = True\n        else:\n            if result[\'grade_decimal\'] > 0:\n                grade = result[\'grade_decimal\'] * credit\n                result[\'grade_decimal\'] = grade\n                result[\'ok\'] = self.grade_decimal_to_ok(grade)\n                changed_result = True\n\n        # Append the message if credit was reduced\n        if self.config[\'attempt_based_credit_msg\'] and changed_result:\n            credit_decimal = Decimal(credit * 100).quantize(Decimal(\'.1\'))\n            if credit_decimal == int(credit_decimal):\n                # Used to get rid of .0 appearing in percentages\n                credit_decimal = int(credit_decimal)\n            msg = "Maximum credit for attempt #{} is {}%."\n            if "input_list" in result:\n                key = \'overall_message\'\n            else:\n                key = \'msg\'\n            if result[key]:\n                result[key] += \'\\n\\n\'\n            result[key] += msg.format(attempt_number, credit_decimal)\n\n    @staticmethod\n    def grade_decimal_to_ok(grade):\n', '                   "set in the <code>customresponse</code> tag.")\n            raise ConfigError(msg)\n\n        attempt_number = max(attempt_number, 1)  # Just in case edX has issues\n        self.log("Attempt number {}".format(attempt_number))\n\n        # Compute the maximum credit\n        cap = CreditCap(attempt_number, self.config[\'attempt_based_credit\'](attempt_number))\n        if cap.is_full():\n            # Don\'t do any modifications\n            return\n        self.log("Maximum credit is {}".format(cap.credit))\n\n        # Multiply all grades by credit, updating from \'ok\'=True to \'partial\' as needed\n        if "input_list" in result:\n            for results_dict in result[\'input_list\']:\n                cap.apply(results_dict)\n        else:\n            cap.apply(result)\n\n        # Append the message if credit was reduced\n        if self.config[\'attempt_based_credit_msg\'] and cap.reduced:\n            key = \'overall_message\' if "input_list" in result else \'msg\'\n            if result[key]:\n                result[key] += \'\\n\\n\'\n            result[key] += cap.note()\n\n    @staticmethod\n    def grade_decimal_to_ok(grade):\n')]
+
 MUTANTS = [
     Mutant('linear-sign', CREDIT, "credit = 1 + (min_cred - 1) * steps / decrease_steps", "credit = 1 - (min_cred - 1) * steps / decrease_steps", 'D1'),
     Mutant('linear-divisor', CREDIT, "credit = 1 + (min_cred - 1) * steps / decrease_steps", "credit = 1 + (min_cred - 1) * steps / (decrease_steps + 1)", 'D1'),
@@ -1515,6 +1575,8 @@ MUTANTS = [
          "        attempt = max(attempt_number, 1)\n        self.log(\"Attempt number {}\".format(attempt))"),
         ("result[key] += msg.format(attempt_number, credit_decimal)", "result[key] += msg.format(attempt, credit_decimal)")], None, 'D2',
            note='the clamped local is used for log and note, the schedule gets the raw attempt number'),
+    Mutant('credit-cap-object-full-test-on-the-attempt', BASE, _CAP_SLIP, None, 'D2',
+           note='wave-6 seed: CreditCap.is_full() tests attempt_number == 1 instead of credit == 1'),
     Mutant('clamp-removed', BASE, "        if attempt_number < 1:  # Just in case edX has issues\n            attempt_number = 1\n", "", 'D2'),
     Mutant('clamp-threshold', BASE, "if attempt_number < 1:  # Just", "if attempt_number < 0:  # Just", 'D2'),
     Mutant('clamp-value', BASE, "            attempt_number = 1\n        self.log(\"Attempt", "            attempt_number = 0\n        self.log(\"Attempt", 'D2'),
@@ -1550,6 +1612,7 @@ MUTANTS = [
 ]
 
 BENIGN = [
+    Benign('credit-cap-object-full-test-on-the-credit', BASE, _CAP_OK, None),
     Benign('per-entry-helper-and-any-in-the-condition', BASE, _TAIL_OLD, _TAIL_HELPER_AND_ANY),
     Benign('unit-interval-validator-as-module-constant', CREDIT, [
         ("Required('minimum_credit', default=0.2): Any(All(float, Range(0, 1)), 0, 1)", "Required('minimum_credit', default=0.2): _unit_interval"),
